@@ -45,9 +45,20 @@ static int blk(const void * p)
     return b >= 0 ? b : -2;
 }
 
+/* header `cbprobe w`: the clear callback re-enters the library and tries to lock weak pointer w into a
+ * private shared pointer.  While a clear callback runs no owner of that memory exists any more, so the lock
+ * must not yield an owner of the memory being destroyed (event 9 otherwise); the probe has no net effect on
+ * any counter in a correct library (a successful lock on some OTHER live allocation is undone at once). */
+static int cbprobe = -1;
+static cstl_shared_ptr_t probe_sp;
 static void clr_log(void * p, void * priv)
 {
     HA_EV(" ; 8 %d %d", blk(p), (int)(intptr_t)priv);
+    if (cbprobe >= 0 && p != NULL) {
+        cstl_weak_ptr_lock(&pool[cbprobe].s, &probe_sp);
+        if (cstl_shared_ptr_get(&probe_sp) == p) HA_EV(" ; 9 %d", blk(p));
+        cstl_shared_ptr_reset(&probe_sp);
+    }
 }
 
 static int ext_index(const void * p)
@@ -176,7 +187,7 @@ static void run_case(const struct h_case * c)
     int i, k, started = 0;
 
     ha_reset();
-    nobj = 0; next_ = 0;
+    nobj = 0; next_ = 0; cbprobe = -1; cstl_shared_ptr_init(&probe_sp);
     for (i = 0; i < c->nlines; i++) {
         const struct h_line * l = &c->lines[i];
         int nw = l->nw, a, b, marks[H_MAXW], nmarks = 0;
@@ -202,6 +213,7 @@ static void run_case(const struct h_case * c)
             continue;
         }
         if (h_weq(l, 0, "failfrom")) { ha_fail_from = (long)h_int(l, 1); continue; }
+        if (h_weq(l, 0, "cbprobe")) { cbprobe = (int)h_int(l, 1); continue; }
         if (!started) {
             for (k = 0; k < nobj; k++) obj_init(k);
             started = 1;
